@@ -3,7 +3,7 @@
    <AdapterClass>.match_to(read) -- result with the adapter's own k-mer prefilter (found, res)
    and with the always-true finder (found_nf, res_nf) -- is validated against AdapterMatch.
    e.want selects the clause groups to evaluate ("C01", "C02", "C07"). *)
-EXTENDS TraceIO, AdapterMatch
+EXTENDS TraceIO, AlignerAlg
 VARIABLE l
 
 CfgOf(e) == [rule |-> e.rule, num |-> e.num, den |-> e.den, ovl |-> e.ovl,
@@ -32,6 +32,16 @@ CheckC02(e, cfg, found, res, tag) ==
   /\ Rep(e.id, "C02.RightmostAtOrAfterRightmostCopyEnd" \o tag, RightmostAtOrAfterRightmostCopyEnd(cfg, e.a, e.r, found, res))
   /\ Rep(e.id, "C02.AnchoredExactRemovedExactly" \o tag, AnchoredExactRemovedExactly(cfg, e.a, e.r, found, res))
 
+\* the transcription for the adapter variant of the event ("rightmost" with ;anywhere runs on the reversed strings)
+AlgFor(e, cfg) ==
+  IF e.typ = "RightmostFront;anywhere"
+  THEN LET c2 == [rule |-> cfg.rule, num |-> cfg.num, den |-> cfg.den, aw |-> cfg.aw, rw |-> cfg.rw, indels |-> cfg.indels,
+                  ovl |-> cfg.ovl, minov |-> EffOvl(cfg, Len(e.a))]
+           x == LocateWithFlags(c2, Flags("Anywhere"), Reverse(e.a), Reverse(e.r))
+       IN IF ~x[1] THEN NoneRes
+          ELSE <<TRUE, <<Len(e.a) - x[2][2], Len(e.a) - x[2][1], Len(e.r) - x[2][4], Len(e.r) - x[2][3], x[2][5], x[2][6]>>>>
+  ELSE AlgLocate(cfg, e.a, e.r)
+
 Has(e, g) == \E i \in 1..Len(e.want) : e.want[i] = g
 
 Check(e) ==
@@ -41,6 +51,8 @@ Check(e) ==
   \* the same clauses on the result obtained with the prefilter bypassed: attributes a miss to its cause
   /\ Has(e, "C01nf") => CheckC01(e, cfg, e.found_nf, e.res_nf, "@nofilter")
   /\ Has(e, "C02nf") => CheckC02(e, cfg, e.found_nf, e.res_nf, "@nofilter")
+  \* conformance of the transcribed algorithm with the real aligner (reported, never an alarm: rule R1)
+  /\ Has(e, "ALG") => Rep(e.id, "ALG.TranscriptionAgreesWithAligner", AlgFor(e, cfg) = <<e.found_nf, e.res_nf>>)
   /\ Has(e, "C07") =>
        Rep(e.id, "C07.SameResultWithAndWithoutPrefilter",
            e.found = e.found_nf /\ (e.found => e.res = e.res_nf))
